@@ -1,10 +1,11 @@
 """C06 -- Server: subscription bookkeeping is exact and respects the per-connection cap."""
+import json, os, random
 import vlib
 from props import subhist_common as S
 
-TRANSLATORS = ["accept_order", "error_consts"]     # error_consts: Model/SubBookWire.v (what the engine prints for the too-many-subscriptions refusal)
+TRANSLATORS = ["accept_order", "table_ops", "error_consts"]     # table_ops: Gen/TableOpsGen.v, how each site takes the subscriber table's mutex (Model/SubBook.v interprets it); error_consts: Model/SubBookWire.v (what the engine prints for the too-many-subscriptions refusal)
 MODELS = ["subhist"]
-BINS = {"release": ["subhist"]}
+BINS = {"release": ["subhist", "submt"]}
 RULE = ("cases = one script line each over {subscribe, accept, reject, handler return, abandoned subscribe call (pending sink "
         "kept / dying with the handler), drop of the pending sink, sink clone/drop, send, is_closed, "
         "unsubscribe(own / foreign / stale / unknown id), connection drop, server stop}, 1..2 connections, caps 0..3, the same "
@@ -16,18 +17,38 @@ RULE = ("cases = one script line each over {subscribe, accept, reject, handler r
         "line by line; the C06 oracle (tools/props/subhist_common.py:oracles: unsubscribe truth table, unsubscribe true only for "
         "a subscription whose accept reported success on that connection, cap, slot return incl. abandoned calls, stays "
         "active) is evaluated on the implementation output alone.  distinct non-trivial = distinct result lines in which at "
-        "least one subscribe call reached the handler")
+        "least one subscribe call reached the handler.  "
+        "THREADS (engine submt; a STRESS TEST in support of the search for a concrete failing schedule, not an enumeration): cases = one "
+        "line `<conns> <subs_per_conn> <threads> <rounds> <seed>` each, run on a real Server on a MULTI-thread tokio runtime "
+        "(harness/src/bin/submt.rs): every connection fills its cap (= subs_per_conn) with subscriptions whose handlers park the sink; "
+        "then, released by one barrier, `threads` OS threads drop ALL sinks while one thread per connection issues unsubscribe calls "
+        "for a random half of the ids (cases with an odd seed add 1-2 holder connections that stream unsubscribe calls naming unknown 1-4 MiB string ids, "
+        "whose hashing happens inside the table's critical section, while the drops are paced over the same milliseconds: a public-API contention "
+        "amplifier that keeps an overlap likely on a loaded machine); after quiescence EVERY id is unsubscribed on its own still-open connection and must answer "
+        "false; then every connection fills its cap again and must not be refused.  The counts {stale true, double true, refused "
+        "re-subscriptions, panics} are compared with the all-zero line that follows from C06_table_ops_unconditional (every site of the "
+        "subscriber table takes a blocking lock(), read from the source by tools/translators/table_ops.py, hence the truth table and "
+        "the slot accounting hold for ALL thread-level traces) and C06_cap_under_contention")
 TRUSTED = [
     "modelled, not verified: tokio mpsc/oneshot/semaphore semantics and the WS writer (Model/SubBook.v), tied by the differential run only",
     "harness: handler remote control, quiescence detection (barrier round-trips / idle rounds), counting IdProvider, frame canonicalisation (error.data dropped)",
     "harness: the rpc middleware `Abandon` installed on every server (races the subscribe-call future against a script-controlled signal, polls the inner "
     "future first, answers an abandoned call with error 44); its transparency was checked by byte-comparing the corpus before/after; `ab,s,k` moves the pending "
     "sink to a detached task from the Drop of the handler future's state",
+    "translator tools/translators/table_ops.py: every mention of `subscribers`/`Subscribers` in core/src/server/{subscription,rpc_module}.rs is classified "
+    "(3 table accesses: accept insert, unsubscribe remove, SubscriptionGuard::drop remove; the rest declarations / Arc moves and clones); an unknown mention, an "
+    "unknown shape at a site, or a mention in another library source file is a translation error; textual (regex over the comment-stripped source), "
+    "parking_lot::Mutex semantics of lock()/try_lock() assumed",
+    "engine submt: barrier-released OS threads, bounded waits (60 s), a case whose waits ran out is re-run (3 attempts) before it is reported as engine-problem",
     "translator tools/translators/accept_order.py: textual anchors for the four effectful steps of PendingSubscriptionSink::accept (exactly one match each, both "
     "sends still behind `?`, exactly one await); Model/SubBook.v interprets the emitted order (accept_run)",
 ]
 ASSUMPTIONS = [
     "partial: real interleavings inside tokio are sampled (one harness-sequenced schedule on a current-thread runtime), not enumerated",
+    "thread-level model: every event carries one bit `contended` (another thread is inside a critical section of the same table); a blocking lock() "
+    "then waits and performs its operation, a try_lock skips it; each table access with its surrounding bookkeeping is still ONE atomic step (the mutex "
+    "makes the access atomic; accept's seam between the answer and the insert is the existing Accept1/Accept2 split).  The theorems quantify over all "
+    "flag assignments; the engine submt samples real schedules (multi-thread runtime + OS threads) as a stress test and cannot show their absence",
     "the window between 'response enqueued' and 'table entry inserted' is a separate model step (an unsubscribe landing there answers false); "
     "on the real runtime that window is a few hundred ns and is not reproduced",
     "the unsubscribe callback's table removal and the enqueueing of its answer are one model step; calls are read only while the connection is open and the server not stopped",
@@ -45,8 +66,98 @@ ASSUMPTIONS = [
 ]
 
 
+# ---------------------------------------------------------------------------------------------- engine submt (threads)
+# fact -> (oracle key, what the theorems say)
+SUBMT_FACTS = [
+    ("stale_true", "unsubscribe-true-for-gone-handler-under-contention",
+     "C06_table_ops_unconditional: over every thread-level trace unsubscribe answers true iff the id is active on that connection; "
+     "all sinks were dropped, so no id is active"),
+    ("double_true", "unsubscribe-true-twice",
+     "C06_table_ops_unconditional: the first `true` removed the entry (active_here needs s_unsubscribed = false), the second answer is false"),
+    ("refused", "slot-not-returned-under-contention",
+     "C06_cap_under_contention + C06_slot_returns: count_live + free permits = cap on every thread-level trace; nothing is live, so cap subscribes are admitted"),
+    ("panics", "panic-under-contention", "no step of the model panics"),
+]
+SUBMT_ENGINE = ("timeouts", "engine")
+
+
+def submt_bin():
+    """VERIF_SUBMT_BIN overrides the stress engine's binary (a harness copy built against another tree)."""
+    return os.environ.get("VERIF_SUBMT_BIN") or vlib.rust_bin("submt")
+
+
+def submt_cases(ctx):
+    """[(line, tag)]; own generator so that the subhist case set (and its cache key) does not move"""
+    rng = random.Random(ctx.seed * 7919 + 606)
+    cases = [("2 200 8 3 %d" % rng.randrange(1 << 30), "2x200x8"), ("2 400 8 3 %d" % rng.randrange(1 << 30), "2x400x8"),
+             ("1 300 8 3 %d" % rng.randrange(1 << 30), "1x300x8"), ("4 100 8 3 %d" % rng.randrange(1 << 30), "4x100x8"),
+             ("2 200 4 3 %d" % rng.randrange(1 << 30), "2x200x4"), ("2 50 16 4 %d" % rng.randrange(1 << 30), "2x50x16")]
+    for _ in range(ctx.scale(30, 400)):
+        conns = rng.choice([1, 2, 2, 3, 4])
+        subs = rng.choice([20, 50, 100, 200, 200, 400] + ([800, 1500] if (ctx.thorough or ctx.search_mode) else []))
+        threads = rng.choice([2, 4, 8, 8, 8, 12, 16])
+        rounds = rng.choice([2, 3, 3, 5])
+        cases.append(("%d %d %d %d %d" % (conns, subs, threads, rounds, rng.randrange(1 << 30)), "%dx%dx%d" % (conns, subs, threads)))
+    return cases
+
+
+def submt_run_one(line):
+    rc, out = vlib.sh([submt_bin()], input=line + "\n", timeout=900)
+    out = out.strip().split("\n")[-1] if out.strip() else ""
+    try:
+        d = json.loads(out)
+        if "fatal" in d:
+            return None, out
+        return d, out
+    except Exception:
+        return None, "rc=%d %s" % (rc, out[-300:])
+
+
+def submt_canonical(d):
+    return " ".join("%s=%d" % (k, d[k]) for k in ("stale_true", "double_true", "refused", "panics", "timeouts", "engine"))
+
+
+SUBMT_EXPECTED = "stale_true=0 double_true=0 refused=0 panics=0 timeouts=0 engine=0"      # what the theorems say, for every schedule
+
+
+def run_submt(ctx):
+    cases = submt_cases(ctx)
+    mixed = 0
+    for line, tag in cases:
+        f = line.split()
+        ctx.count("submt:conns=%s" % f[0])
+        ctx.count("submt:threads=%s" % f[2])
+        ctx.count("submt:holders" if int(f[4]) % 2 else "submt:plain")
+        d = raw = None
+        for attempt in range(3):
+            d, raw = submt_run_one(line)
+            # only waits that ran out / transport trouble are retried; a property fact is never retried away
+            if d is not None and (any(d[k] for k, _, _ in SUBMT_FACTS) or not any(d[k] for k in SUBMT_ENGINE)):
+                break
+        case = {"submt": line, "tag": tag}
+        if d is None:
+            ctx.fail("oracle", "engine-problem", case, raw)
+            continue
+        facts = submt_canonical(d)
+        for k, key, why in SUBMT_FACTS:
+            if d[k]:
+                ctx.fail("oracle", key, case, "%s=%d (%s); expected 0: %s; info %s" % (k, d[k], facts, why, json.dumps(d.get("info"))))
+        if not any(d[k] for k, _, _ in SUBMT_FACTS) and any(d[k] for k in SUBMT_ENGINE):
+            ctx.fail("oracle", "engine-problem", case, "%s after 3 attempts; info %s" % (facts, json.dumps(d.get("info"))))
+        info = d.get("info", {})
+        both = bool(info.get("conc_true")) and bool(info.get("conc_false"))
+        mixed += both
+        # non-trivial (deterministic): the concurrent phase ran and its unsubscribe calls were answered
+        ran = bool(info.get("conc_true", 0) + info.get("conc_false", 0)) and info.get("rounds_done", 0) > 0
+        ctx.record(case, "submt %s -> %s" % (line, facts), nontrivial=ran, validated=(facts == SUBMT_EXPECTED))
+    ctx.extra["submt_cases"] = len(cases)
+    ctx.extra["submt_cases_with_both_orders"] = mixed      # concurrent unsubscribes that won and that lost against the drop of the same id
+
+
 def run(ctx):
-    ctx.engines = ["subhist (harness/src/bin/subhist.rs on a real Server vs modelrun/subhist_driver.ml over coq/Model/SubBook.v)"]
+    ctx.engines = ["subhist (harness/src/bin/subhist.rs on a real Server vs modelrun/subhist_driver.ml over coq/Model/SubBook.v)",
+                   "submt (harness/src/bin/submt.rs: stress test on a multi-thread runtime, barrier-released OS threads; expected facts = the all-zero line "
+                   "derived from C06_table_ops_unconditional / C06_cap_under_contention)"]
     cases = S.gen_cases(ctx)
     lines = [l for l, _ in cases]
     ri, rm, cached = S.run_engine(lines)
@@ -68,7 +179,24 @@ def run(ctx):
                 ctx.fail("oracle", key, {"line": line, "tag": tag}, detail)
         ctx.record({"line": line}, a, nontrivial=('"h0"' in a), validated=(a == b))
     S.report_oracle_failures(ctx, "C06", found)
+    run_submt(ctx)      # last: ctx.record draws from ctx.rng, the subhist case set above must not move
 
 
 def replay(payload):
+    case = payload.get("case")
+    if isinstance(case, dict) and "submt" in case:
+        line = case["submt"]
+        print("stress case (conns subs_per_conn threads rounds seed):", line)
+        if os.environ.get("VERIF_SUBMT_BIN"):
+            print("implementation binary overridden:", submt_bin())
+        print("expected for every schedule (C06_table_ops_unconditional, C06_cap_under_contention):", SUBMT_EXPECTED)
+        bad = 0
+        for i in range(10):
+            d, raw = submt_run_one(line)
+            facts = submt_canonical(d) if d is not None else raw
+            hit = d is None or facts != SUBMT_EXPECTED
+            bad += hit
+            print("run %2d: %s%s" % (i + 1, facts, "   <-- differs" if hit else ""))
+        print("the schedule is the OS scheduler's: %d of 10 runs differ from the expected line" % bad)
+        return 1 if bad else 0
     return S.replay_case(payload, "C06")
